@@ -61,6 +61,10 @@ func (c *caseOrderChecker) checkTypeSwitch(s *ast.TypeSwitchStmt) {
 				c.warnUnknownType(cc, x)
 				return
 			}
+			if b, ok := typ.(*types.Basic); ok && b.Kind() == types.UntypedNil {
+				// "case nil" matches only the nil interface value, which no other case can take.
+				continue
+			}
 			for _, iface := range ifaces {
 				if types.Implements(typ, iface.typ) {
 					c.warnTypeSwitch(cc, x, iface.node)
